@@ -1,4 +1,5 @@
 import DclabModel.Model.Cli
+import Std.Data.String.ToNat
 /-! Helper lemmas for properties C09 and C10 (command-line tasks). Core Lean only. -/
 namespace DclabModel.Cli
 
@@ -467,5 +468,41 @@ theorem agree_eraseTemps (r : Roles) (fs : FS) :
       | none => rfl
       | some f => simp [h] at hp
     rw [this]; split <;> rfl
+
+
+/-! ## C09: the concrete log-name prefixes `src-#<i>_` are prefix-free -/
+
+/-- two lists that agree after splitting at the first separator have the same part before it -/
+theorem split_at_sep {α} (s : α) : ∀ (l1 l2 r1 r2 : List α), s ∉ l1 → s ∉ l2 →
+    l1 ++ s :: r1 = l2 ++ s :: r2 → l1 = l2
+  | [], [], _, _, _, _, _ => rfl
+  | [], y :: l2, r1, r2, _, h2, h => by
+      simp at h; exact absurd h.1 (by intro e; exact h2 (by simp [e]))
+  | x :: l1, [], r1, r2, h1, _, h => by
+      simp at h; exact absurd h.1 (by intro e; exact h1 (by simp [e]))
+  | x :: l1, y :: l2, r1, r2, h1, h2, h => by
+      simp at h
+      have := split_at_sep s l1 l2 r1 r2 (fun m => h1 (List.mem_cons_of_mem _ m))
+        (fun m => h2 (List.mem_cons_of_mem _ m)) h.2
+      rw [h.1, this]
+
+/-- `"src-#" ++ toString i ++ "_"`: the decimal rendering of `i` contains no `_`, so the position of
+the first `_` after `src-#` determines `i`; names with different source positions never collide. -/
+theorem srcPrefix_prefix_free (i j : Nat) (a c : String) (h : i ≠ j) :
+    srcPrefix i ++ a ≠ srcPrefix j ++ c := by
+  intro heq
+  have hl := congrArg String.toList heq
+  simp only [srcPrefix, String.toList_append] at hl
+  have e1 : (toString i : String) = Nat.repr i := rfl
+  have e2 : (toString j : String) = Nat.repr j := rfl
+  rw [e1, e2, Nat.toList_repr, Nat.toList_repr] at hl
+  simp only [List.append_assoc, List.append_cancel_left_eq] at hl
+  have : ("_" : String).toList = ['_'] := rfl
+  rw [this] at hl
+  have hd := split_at_sep '_' _ _ _ _ (by simp) (by simp) hl
+  apply h
+  apply Nat.repr_injective
+  apply String.toList_inj.mp
+  rw [Nat.toList_repr, Nat.toList_repr, hd]
 
 end DclabModel.Cli
